@@ -132,7 +132,7 @@ func VH_C16() {
 	}
 	pathReq := mk(slashes(lead)+"/"+bucket+keyPart+slashes(trail), base1)
 
-	hostKind := vsym.Choice("hostkind", 4)
+	hostKind := vsym.Choice("hostkind", 6)
 	var host string
 	matches := true
 	switch hostKind {
@@ -147,6 +147,17 @@ func VH_C16() {
 		if mode == 3 {
 			vsym.Assume(false) // under nested bases "s3.example.test" is bucket "s3" of the parent base
 		}
+	case 4: // ends in the base's text but not at a label boundary
+		host = bucket + base1
+		matches = false
+		if mode == 0 || mode == 3 {
+			// plain host-bucket mode takes the first label ("<bucket><first label of the base>"),
+			// and under nested bases that label is a bucket of the parent base
+			vsym.Assume(false)
+		}
+	case 5: // an unrelated host
+		host = bucket + ".unrelated.invalid"
+		matches = false
 	default: // two-label prefix
 		host = bucket + ".x." + base1
 		matches = false
